@@ -156,6 +156,15 @@ def run_config(cfg, strategy=None, want_choices=False):
                 ev(ev='write', m=name)
                 return value
             body['write_w'] = write_w
+        if name in cfg.get('polls', []):
+            # a polled parameter: its read function is part of the first round of the poll thread - which comes after
+            # ALL configured values of the modules served by that thread have been written
+            body['pv'] = Parameter('pv', FloatRange(), default=0)
+
+            def read_pv(self):
+                ev(ev='read', m=name)
+                return 0.0
+            body['read_pv'] = read_pv
         rdur = cfg.get('readdur', {}).get(name)
         if rdur:       # a polled parameter whose (first) read hangs: the first round of this poll thread takes long
             body['r'] = Parameter('r', FloatRange(), default=0)
